@@ -195,6 +195,7 @@ theorem runProposalMsgs_ghost (hc : execInCacheCtx = true) (ms : List Msg) (s : 
 theorem dropInactive_ledger {s s' : State} {pid : Nat} (hsh : inactiveSettleShapeOk = true) (h : Ledger s)
     (hd : dropInactive pid s = .ok s') : Ledger s' := by
   unfold dropInactive at hd
+  simp only [refundRun_eq, burnRun_eq] at hd
   split at hd
   · cases hd
   · simp only [hsh, if_true] at hd
@@ -208,6 +209,7 @@ theorem finishTally_ledger {s s' : State} {pid : Nat} {p : Proposal} {passes bur
     (h2 : settleShapeOk = true) (h3 : execInCacheCtx = true) (h : Ledger s)
     (hf : finishTally passes burn res p pid s = .ok s') : Ledger s' := by
   unfold finishTally at hf
+  simp only [refundRun_eq, burnRun_eq] at hf
   simp only [h2, Bool.not_true, Bool.false_and, Bool.false_eq_true, if_false] at hf
   simp only [if_true] at hf
   have settle : ∀ s1 : State,
